@@ -287,7 +287,11 @@ class Type4Tag(nfc.tag.Tag):
 
             self._max_le = mle
             self._max_lc = mlc
-            self._capacity = mfs - tag + 2
+            if not self.tag._extended_length_support:
+                # short APDUs carry at most 255 command / 256 response bytes
+                self._max_le = min(mle, 256)
+                self._max_lc = min(mlc, 255)
+            self._capacity = min(mfs, 0x10000) - tag + 2
             self._readable = bool(rf == 0)
             self._writeable = bool(wf == 0)
             self._nlen_size = tag - 2
@@ -350,8 +354,9 @@ class Type4Tag(nfc.tag.Tag):
             while offset < len(data):
                 offset += self._update_binary(offset, data[offset:])
 
-            if nlen:
-                self._update_binary(0, nlen)
+            offset = 0
+            while nlen and offset < len(nlen):
+                offset += self._update_binary(offset, nlen[offset:])
 
             return True
 
